@@ -42,7 +42,7 @@ TRUSTED = ['model TileSvc.v hand-written from service/tile.py, service/wmts.py, 
            'skip_odd (res[0]/res[1] == math.sqrt(2)) is an input of the model, taken from the configuration (res_factor: sqrt2)']
 ASSUMPTIONS = ['resolutions positive (strictly decreasing for same_ground_tile_same_internal), bbox non-degenerate, tile size positive',
                'tms_address_exact: layer extent = grid bbox and (origin ll or tiled area bottom-aligned at that level) - excludes exactly finding F8',
-               'wmts_address_exact / kml_href_roundtrip: no sqrt2 level skip - excludes exactly the new findings W1 / K1',
+               'kml_href_roundtrip: on sqrt2 grids for even internal levels (the only ones KML links to); W1/K1/K2 are repaired',
                'origin_override_exact / kml_address_exact: the effective origin is the grid origin or the level is bottom-aligned (misalign = 0)',
                'meter_per_unit positive (wmts scale denominator)']
 EXPLANATION = ('address -> internal coordinate and capabilities -> client rectangle proved equal over Z for all grids; real app '
@@ -52,9 +52,6 @@ CORPUS = os.path.join(HERE, 'corpus', 'C02')
 
 SIG_F8 = 'tms:origin-is-not-a-tile-corner(ul-unaligned-or-extent-differs)'
 SIG_F8_WMSC = 'wmsc:advertised-tile-refused-or-shifted(ul-unaligned-or-extent-differs)'
-SIG_W1 = 'wmts:sqrt2-grid-matrix-served-from-doubled-level'
-SIG_K1 = 'kml:sqrt2-ul-grid-href-flipped-with-wrong-level-size'
-SIG_K2 = 'kml:document-of-deepest-level-500'
 
 MERC = 20037508.342789244
 MPD = 111319.4907932736
@@ -431,7 +428,6 @@ class Run(object):
         self.wmsc = ([], [])
         self.kml = ([], [])
         self.known = {}
-        self.k2 = 0
 
     def add(self, table, term, desc):
         table[0].append(term)
@@ -639,31 +635,21 @@ def do_kml_docs(R, st, srv, rel):
                     s2, _, _, loads2 = get(R.app, R.obs, path_of(href))
                     k2, c2 = observed_coord(s2, loads2)
                     dd = dict(d, href=href, latlonbox=[float(v) for v in box], loaded=repr(loads2), status2=s2)
-                    k1 = st.sqrt2 and gc.ul
                     if k2 != 'ok':
                         ctx.fail('kml:unexpected-answer', 'KML image %s: %s' % (href, c2), dd)
                     elif c2 is None:
-                        ctx.fail(SIG_K1 if k1 else 'kml:advertised-address-refused', 'image %s advertised by %s is refused (%s)' % (href, url, s2), dd)
+                        ctx.fail('kml:advertised-address-refused', 'image %s advertised by %s is refused (%s)' % (href, url, s2), dd)
                     elif not (0 <= c2[2] < len(gc.res)) or not rect_close(gc.tile_rect(*c2), box, ktol):
-                        ctx.fail(SIG_K1 if k1 else 'kml:rectangle-mismatch', 'image %s advertised with LatLonBox %r is tile %r covering %r' % (
+                        ctx.fail('kml:rectangle-mismatch', 'image %s advertised with LatLonBox %r is tile %r covering %r' % (
                             href, [float(v) for v in box], c2, [float(v) for v in gc.tile_rect(*c2)]), dd)
                 for href in links:
                     s3, _, _, _ = get(R.app, R.obs, path_of(href))
                     if s3 != 200:
-                        deepest = re.search(r'/(-?\d+)/-?\d+/-?\d+\.kml$', href)
-                        is_deepest = deepest is not None and (int(deepest.group(1)) + 1) * step >= len(gc.res)
-                        if s3 == 500 and is_deepest:
-                            # robustness defect outside the statement of C02 (a document, not a tile): counted, reported in the notes
-                            R.k2 += 1
-                            continue
-                        sig = SIG_K1 if (st.sqrt2 and gc.ul) else 'kml:advertised-document-fails'
-                        ctx.fail(sig, 'KML document %s linked from %s answers %s' % (href, url, s3), dict(d, href=href, status3=s3))
+                        ctx.fail('kml:advertised-document-fails', 'KML document %s linked from %s answers %s' % (href, url, s3),
+                                 dict(d, href=href, status3=s3))
             elif status == 500:
                 term = 'KmlCrash'
-                if inside and (z + 1) * step >= len(gc.res):
-                    R.k2 += 1
-                else:
-                    ctx.fail('kml:document-500', 'KML document %s answers 500' % url, d)
+                ctx.fail('kml:document-500', 'KML document %s answers 500' % url, d)
             elif status in (400, 404):
                 term = 'KmlOutOfRange'
                 if inside:
@@ -729,7 +715,7 @@ def do_wmts(R, st, srv, sets, layers, flavour):
                 url = ('/service?service=WMTS&request=GetTile&version=1.0.0&layer=%s&style=&tilematrixset=%s&tilematrix=%s'
                        '&tilerow=%d&tilecol=%d&format=%s' % (name, gname, m['id'], row, col, lay['format']))
             check_address(R, st, srv, 'wmts-' + flavour, '(AWmts %s %s %s)' % (zlit(mid), zlit(col), zlit(row)), url, rect,
-                          ['wmts', mid, col, row], advertised, SIG_W1, st.sqrt2 and mid > 0)
+                          ['wmts', mid, col, row], advertised)
     # a matrix that is not advertised
     mid = len(mats)
     url = '/service?service=WMTS&request=GetTile&version=1.0.0&layer=%s&style=&tilematrixset=%s&tilematrix=%d&tilerow=0&tilecol=0&format=%s' % (
@@ -947,8 +933,6 @@ def run(ctx):
     for f in ctx.failures:
         hist[f['signature']] = hist.get(f['signature'], 0) + 1
     ctx.notes.append('oracle failures by signature: %s' % json.dumps(hist, sort_keys=True))
-    ctx.notes.append('KML documents of the deepest level answering 500 (kml.py _get_subtiles subscripts None; robustness defect outside '
-                     'the statement of C02, modelled as KmlCrash): %d' % R.k2)
     if os.environ.get('VERIF_C02_DEBUG'):
         print(json.dumps(hist, indent=1, sort_keys=True))
         seen = set()
